@@ -42,6 +42,7 @@ func (stubProvider) Receive(*actor.Context) {}
 var kindsOf = [][]string{
 	{"player", "room"}, // self
 	{"player"}, {"room", "npc"}, {}, {"npc"}, {"bank", "player"}, {"room"},
+	{"ghost"}, // member 7 has an id with a comma in it: "m1,m2" (ids are free-form strings)
 }
 
 var allKinds = []string{"player", "room", "npc", "bank", "ghost"}
@@ -53,7 +54,11 @@ func member(i int) *cluster.Member {
 	if i == 0 {
 		return &cluster.Member{ID: "self", Host: "127.0.0.1:4000", Region: "default", Kinds: kindsOf[0]}
 	}
-	return &cluster.Member{ID: fmt.Sprintf("m%d", i), Host: fmt.Sprintf("127.0.0.1:%d", 4000+i), Region: "default", Kinds: kindsOf[i]}
+	id := fmt.Sprintf("m%d", i)
+	if i == 7 {
+		id = "m1,m2"
+	}
+	return &cluster.Member{ID: id, Host: fmt.Sprintf("127.0.0.1:%d", 4000+i), Region: "default", Kinds: kindsOf[i]}
 }
 
 // monitor: an actor that logs the cluster events it sees.
